@@ -256,12 +256,18 @@ impl<'a> Gen<'a> {
     }
 
     pub fn script(&mut self, depth: usize, flags: Flags) -> Script {
+        self.script_inner(depth, flags, false)
+    }
+
+    fn script_inner(&mut self, depth: usize, flags: Flags, producer: bool) -> Script {
         #[derive(Clone, Copy)]
         struct H {
             hard_block_since: bool,
             aborted_lazily: bool,
             aborted: bool,
             just_spawned: bool,
+            /// producer of a channel this task reads: only an immediate abort has a specified time
+            pipe: bool,
         }
         let n = self.rng.range(1, 7) as usize;
         let mut instrs = vec![];
@@ -271,6 +277,7 @@ impl<'a> Gen<'a> {
         let mut has_yield = false;
         let mut has_lazy_abort = false;
         let legacy = self.cfg.legacy;
+        let legacy_no_pipe = false;
         for _ in 0..n {
             if self.budget <= 0 && !instrs.is_empty() {
                 break;
@@ -295,12 +302,12 @@ impl<'a> Gen<'a> {
                 handles
                     .iter()
                     .enumerate()
-                    .filter(|(_, h)| h.hard_block_since && !h.aborted)
+                    .filter(|(_, h)| h.hard_block_since && !h.aborted && !h.pipe)
                     .map(|(i, _)| i)
                     .collect()
             };
             let task_abort = self.cfg.task_abort && !legacy;
-            let w: [u32; 14] = [
+            let w: [u32; 16] = [
                 10,                                                    // 0 Req
                 if streams < 2 { 4 } else { 0 },                       // 1 Open
                 if streams > 0 { 7 } else { 0 },                       // 2 Next
@@ -315,6 +322,8 @@ impl<'a> Gen<'a> {
                 3,                                                     // 11 Select
                 if has_lazy_abort { 0 } else { 3 },                    // 12 Yield
                 2,                                                     // 13 Hold
+                if spawn_ok && streams < 2 && !legacy_no_pipe { 3 } else { 0 }, // 14 SpawnPipe
+                if producer { 9 } else { 0 },                          // 15 Send
             ];
             let choice = self.rng.weighted(&w);
             // anything but an immediate abort ends the "just spawned" window
@@ -383,6 +392,7 @@ impl<'a> Gen<'a> {
                         aborted_lazily: false,
                         aborted: false,
                         just_spawned: true,
+                        pipe: false,
                     });
                 }
                 7 => {
@@ -427,6 +437,26 @@ impl<'a> Gen<'a> {
                     let c = self.counter;
                     self.counter += 1;
                     instrs.push(Instr::Hold { counter: c });
+                }
+                14 => {
+                    let s = self.script_inner(depth + 1, flags, true);
+                    instrs.push(Instr::SpawnPipe { script: s });
+                    handles.push(H {
+                        hard_block_since: false,
+                        aborted_lazily: false,
+                        aborted: false,
+                        just_spawned: true,
+                        pipe: true,
+                    });
+                    streams += 1;
+                }
+                15 => {
+                    let reg = if regs > 0 && self.rng.chance(2, 3) {
+                        Some(self.rng.usize_below(regs))
+                    } else {
+                        None
+                    };
+                    instrs.push(Instr::Send { reg });
                 }
                 _ => unreachable!(),
             }
